@@ -25,6 +25,10 @@ pub struct Tok {
     pub col: u32,
     /// the spelling of a numeric literal (0x10, 007); empty for other tokens
     pub text: String,
+    /// C: this name was met while its macro was being replaced and is never replaced again.
+    /// RSSL keeps no such mark, so meeting a marked name where RSSL would replace it is outside
+    /// the common subset.
+    pub painted: bool,
 }
 
 impl Tok {
@@ -116,6 +120,8 @@ pub struct ModelRun {
     pub once_skips: u32,
     pub cross_file_redefs: u32,
     pub max_depth: u32,
+    /// names left alone because their macro was being replaced around them (self reference)
+    pub self_references: u32,
 }
 
 #[derive(Clone, Debug)]
@@ -159,6 +165,7 @@ struct State<'a> {
     once_skips: u32,
     cross_file_redefs: u32,
     max_depth: u32,
+    self_references: std::cell::Cell<u32>,
 }
 
 const STEP_BUDGET: u64 = 60_000;
@@ -214,6 +221,7 @@ fn lex_line(text: &str, file: &str, line: u32, col0: u32) -> Result<Vec<Tok>, St
                 line,
                 col,
                 text: String::new(),
+                painted: false,
             });
         } else if c.is_ascii_digit() {
             let s = i;
@@ -249,6 +257,7 @@ fn lex_line(text: &str, file: &str, line: u32, col0: u32) -> Result<Vec<Tok>, St
                 line,
                 col,
                 text: txt,
+                painted: false,
             });
         } else if matches!(c, ';' | '(' | ')' | ',' | '=' | '+' | '!' | '{' | '}')
             || (lenient && c.is_ascii_punctuation() && !matches!(c, '#' | '"' | '\'' | '\\' | '/'))
@@ -259,6 +268,7 @@ fn lex_line(text: &str, file: &str, line: u32, col0: u32) -> Result<Vec<Tok>, St
                 line,
                 col,
                 text: String::new(),
+                painted: false,
             });
             i += 1;
         } else {
@@ -414,6 +424,11 @@ impl State<'_> {
         if last == just_expanded || disabled.contains(last) {
             return Ok(false);
         }
+        if out.last().is_some_and(|t| t.painted) {
+            return Err(Stop::Unmodelled(
+                "a name C has marked as not replaceable is met again where its macro is enabled".into(),
+            ));
+        }
         if out.len() <= before_len {
             // the replacement was empty and the name stood in front of it: C does not go back to
             // it, RSSL does - outside the common subset
@@ -459,7 +474,18 @@ impl State<'_> {
         while i < toks.len() {
             let t = &toks[i];
             if let Atom::Id(name) = &t.atom
-                && !disabled.contains(name)
+                && disabled.contains(name)
+            {
+                // the name of a macro that is being replaced around this point is not replaced -
+                // and C never replaces this very token later either
+                let mut p = t.clone();
+                p.painted = true;
+                out.push(p);
+                self.self_references.set(self.self_references.get() + 1);
+                i += 1;
+                continue;
+            }
+            if let Atom::Id(name) = &t.atom
                 && let Some(m) = self.macros.iter().find(|m| &m.name == name)
             {
                 if forbidden.contains(name) {
@@ -467,8 +493,16 @@ impl State<'_> {
                         "an argument names a macro that is being expanded around it".into(),
                     ));
                 }
+                let marked = || {
+                    Err(Stop::Unmodelled(
+                        "a name C has marked as not replaceable is met again where its macro is enabled".into(),
+                    ))
+                };
                 match &m.body {
                     Body::Object(body) => {
+                        if t.painted {
+                            return marked();
+                        }
                         let before_len = out.len();
                         disabled.push(name.clone());
                         let r = self.expand_guarded(body, disabled, forbidden, out);
@@ -495,6 +529,9 @@ impl State<'_> {
                             out.push(t.clone());
                             i += 1;
                             continue;
+                        }
+                        if t.painted {
+                            return marked();
                         }
                         // split the arguments at commas outside nested parentheses
                         let mut args: Vec<Vec<Tok>> = vec![Vec::new()];
@@ -550,13 +587,12 @@ impl State<'_> {
                                 starts_at: None,
                             }));
                         }
-                        // arguments are completely macro replaced before substitution
-                        let mut inner_forbidden: Vec<String> = forbidden.to_vec();
-                        inner_forbidden.extend(disabled.iter().cloned());
+                        // arguments are completely macro replaced before substitution; the
+                        // macros being replaced around the invocation stay disabled inside them
                         let mut expanded: Vec<Vec<Tok>> = Vec::new();
                         for a in &args {
                             let mut ea = Vec::new();
-                            self.expand_guarded(a, &mut Vec::new(), &inner_forbidden, &mut ea)?;
+                            self.expand_guarded(a, disabled, forbidden, &mut ea)?;
                             expanded.push(ea);
                         }
                         let mut replaced: Vec<Tok> = Vec::new();
@@ -596,6 +632,9 @@ impl State<'_> {
                             i += 1;
                             continue;
                         }
+                        if t.painted {
+                            return marked();
+                        }
                         let shape_ok = toks.len() >= i + 6
                             && toks[i + 3].atom == Atom::Punct(',')
                             && toks[i + 5].atom == Atom::Punct(')');
@@ -628,6 +667,7 @@ impl State<'_> {
                                     line: 1,
                                     col: 1,
                                     text,
+                                    painted: false,
                                 });
                                 i += 6;
                                 continue;
@@ -643,6 +683,7 @@ impl State<'_> {
                             line: 1,
                             col: 1,
                             text: String::new(),
+                            painted: false,
                         });
                         i += 6;
                         continue;
@@ -850,6 +891,7 @@ impl State<'_> {
                     line: line_no,
                     col: 0,
                     text: String::new(),
+                    painted: false,
                 });
             }
         }
@@ -1150,6 +1192,7 @@ pub fn run(fs: &FsSpec, faults: &[Fault], entry: &str, defines: &[(String, Strin
         once_skips: 0,
         cross_file_redefs: 0,
         max_depth: 0,
+        self_references: std::cell::Cell::new(0),
     };
     let finish = |st: State, verdict: Verdict| ModelRun {
         verdict,
@@ -1158,6 +1201,7 @@ pub fn run(fs: &FsSpec, faults: &[Fault], entry: &str, defines: &[(String, Strin
         once_skips: st.once_skips,
         cross_file_redefs: st.cross_file_redefs,
         max_depth: st.max_depth,
+        self_references: st.self_references.get(),
     };
     for (name, value) in defines {
         match lex_line(value, "<command line>", 1, 1) {
